@@ -18,12 +18,13 @@ import (
 	"verif/engine/core"
 	"verif/engine/findings"
 	"verif/engine/gen"
-	_ "verif/props"
+	"verif/props"
 )
 
 var root = "/verif"
 
 func main() {
+	dumpPypiCandidates = props.C09Candidates0
 	prop := flag.String("prop", "", "property id")
 	tier := flag.String("tier", "quick", "quick|thorough")
 	worker := flag.String("worker", "", "i/n (internal)")
